@@ -18,11 +18,16 @@ RULE = ("(1) kinds: the COMPLETE product {sun_zenith_angle, cos_zen, get_alt_az,
         "float32/float64/int64 dask arrays}: branches taken (dt2np, _days, cast-back guards: observed by line tracing) and "
         "container/dtype/rank of every returned component, model vs code (exhaustive; base instant = a seeded whole minute "
         "1990-2040, distinct values per element); the transfer functions of the abstract domain vs numpy/dask on all pairs of "
-        "abstract values (exhaustive); (2) one seeded instant (epoch +-30 d of a real or generated TLE; 50 % whole seconds, "
-        "15 % whole minutes) in every representation: bit-identical results of every time-dependent entry point; (3) array "
-        "calls (shapes (6,), (6,)x(2,1), (2,3)) vs the scalar calls after broadcasting (1e-6 of the unit) for get_position, "
-        "get_lonlatalt, both look functions, the sun functions, observer_position, gmst, jdays; "
-        "distinct = (function, time kind, coordinate kind) cell, (function, instant) or (function, shapes, orbit)")
+        "abstract values (exhaustive); joint loops: iteration counts of the real latitude and Newton loops (line tracing) for a "
+        "5-element array call vs its scalar calls; (2) one seeded instant (epoch +-30 d of an element set; 35 % whole seconds, "
+        "15 % whole minutes, 10 % whole milliseconds) in every representation (datetime, datetime64[ns|us|ms|s|m] where "
+        "representable, 1-d/2-d object arrays, datetime64[us|ns|ms] arrays): bit-identical results of jdays, jdays2000, gmst, "
+        "the sun functions, observer_position, get_position, get_lonlatalt and both look functions; (3) array calls (times "
+        "(6,) with coordinates (6,) or (2,1), times (2,3) with coordinates (2,3) or scalar) vs the scalar calls after "
+        "broadcasting (1e-6 of the unit, angles modulo a turn) for get_position, get_lonlatalt, both look functions, the sun "
+        "functions, observer_position, gmst, jdays; element sets: real near-circular ones, generated near-earth ones and "
+        "eccentric near-earth ones (e 0.02-0.35), instants with a propagated radius of 6300-100000 km; "
+        "distinct = (function, time kind, coordinate kind) cell, instant, or (function, shapes, element set, first instant)")
 ASSUMPTIONS = ["orbit cases are (element set, instant) pairs at which the propagated radius is 6300..100000 km; decayed element sets "
                "(radius 1e6 km and more a few days from epoch) are outside the sampled domain",
                "dask laziness and xarray wrappers are library behaviour (dask enumerated by kind and probed for laziness with a "
@@ -439,7 +444,7 @@ def correspond(ctx):
             ctx.sample({"fn": exp[k][0], "time": exp[k][1], "coord": exp[k][2], "observed": exp[k][3]})
     # (c) day counts: the ns path of the model (whole microseconds + zero remainder) is bit-identical to the us path
     lines, exp = [], []
-    for _ in range(ctx.size(1500, 40000)):
+    for _ in range(ctx.size(1500, 100000)):
         us = ctx.rng.randrange(-2208988800 * 10 ** 6, 4133980800 * 10 ** 6)
         lines.append("jd us %d" % us)
         lines.append("jd ns %d" % (us * 1000))
@@ -740,7 +745,7 @@ def oracle(ctx):
                                   obs, req, site="astronomy." + fn)
     # (2) one instant, every representation: bit-identical
     objs = orbit_pool(ctx, ctx.size(4, 16), ctx.size(4, 16))
-    for k in range(ctx.size(300, 8000)):
+    for k in range(ctx.size(300, 20000)):
         a_, b_, o = objs[k % len(objs)]
         us_off = ctx.rng.randrange(-30 * 86400 * 10 ** 6, 30 * 86400 * 10 ** 6)
         t = (o.tle.epoch.astype(dt.datetime) + dt.timedelta(microseconds=us_off))
@@ -763,7 +768,7 @@ def oracle(ctx):
                           got, ref, site=name)
     # (3) arrays vs scalar calls after broadcasting, 1e-6 of the unit
     names = list(broadcast_calls(objs[0][2]))
-    for k in range(ctx.size(32, 600)):
+    for k in range(ctx.size(32, 1500)):
         a_, b_, o = objs[k % len(objs)]
         ts = sane_times(ctx, o, 6, 3.0)
         if len(ts) < 6:
